@@ -145,7 +145,7 @@ func checkGates(p *ana.Prog, r *ana.Result, rule string, fn *ssa.Function, start
 
 // originGate builds the disjunctive origin-timestamp test of the NTP clients:
 // (interleavedReq && resp.Origin == req.Receive) || resp.Origin == req.Transmit.
-func originGate(p *ana.Prog, r *ana.Result, fn *ssa.Function, respRoot, reqRoot ssa.Value) *ana.Gate {
+func originGate(p *ana.Prog, r *ana.Result, fn *ssa.Function, respRoot, reqRoot ssa.Value, target, stop func(ssa.Instruction) bool) *ana.Gate {
 	isPath := func(v ssa.Value, root ssa.Value, field string) bool {
 		pth := ana.AccessPath(v)
 		return strings.HasSuffix(pth, "."+field) && rootAlloc(v) == root
@@ -200,6 +200,23 @@ func originGate(p *ana.Prog, r *ana.Result, fn *ssa.Function, respRoot, reqRoot 
 			}
 		}
 	})
+	gBasic := pathCmpGate(p, fn, "origin==req.TransmitTime", func(x, y ssa.Value) bool {
+		return isPath(x, respRoot, "OriginTime") && isPath(y, reqRoot, "TransmitTime")
+	}, true)
+	// edges on which the request is known to have been built as an interleaved one
+	flagTrue := ana.EdgeSet{}
+	ana.IfEdges(fn, func(iff *ssa.If, b *ssa.BasicBlock) {
+		for si, val := range []bool{true, false} {
+			for _, a := range ana.Implied(iff.Cond, val) {
+				if !a.Holds {
+					continue
+				}
+				if ph, ok := a.V.(*ssa.Phi); condFlags[a.V] || (ok && isReqFlag(ph)) {
+					flagTrue[ana.Edge{From: b, Succ: si}] = true
+				}
+			}
+		}
+	})
 	for e := range gInter.Accept {
 		okDom := false
 		ana.IfEdges(fn, func(iff *ssa.If, b *ssa.BasicBlock) {
@@ -220,15 +237,20 @@ func originGate(p *ana.Prog, r *ana.Result, fn *ssa.Function, respRoot, reqRoot 
 				}
 			}
 		})
+		if !okDom && target != nil && len(flagTrue) > 0 {
+			// the flag may also be tested behind the comparison: from the comparison's accept edge no
+			// path reaches a success return without the flag's true edge or the basic-mode comparison
+			sr := &ana.Search{Fn: fn, Target: target, Stop: stop, Cut: func(c ana.Edge) bool { return flagTrue[c] || gBasic.Accept[c] }}
+			if found, _ := sr.RunAtEdge(e); !found {
+				okDom = true
+			}
+		}
 		if !okDom {
 			r.Violate("C05.accept", ana.FuncName(fn), "origin-interleaved-unguarded", p.Pos(fn.Pos()),
 				"the comparison resp.OriginTime == req.ReceiveTime is accepted without the outstanding request having been built as an interleaved request")
 			delete(gInter.Accept, e)
 		}
 	}
-	gBasic := pathCmpGate(p, fn, "origin==req.TransmitTime", func(x, y ssa.Value) bool {
-		return isPath(x, respRoot, "OriginTime") && isPath(y, reqRoot, "TransmitTime")
-	}, true)
 	// the same test written as one boolean (e.g. the result of a helper): by truth table,
 	// (request was interleaved && origin == req.ReceiveTime) || origin == req.TransmitTime
 	eqPaths := func(f1, f2 string) ana.AtomMatcher {
@@ -360,7 +382,7 @@ func c05Client(p *ana.Prog, r *ana.Result, name string, scion bool) {
 			a1 := ana.AccessPath(c.Common().Args[1])
 			srcOK := false
 			if call, _ := ana.CallOf(c.Common().Args[0]); call != nil && ana.CalleeName(call.Common()) == "(net/netip.AddrPort).Addr" {
-				if e, ok := call.Common().Args[0].(*ssa.Extract); ok && e.Tuple == ssa.Value(rd) && e.Index == 3 {
+				if e, ok := stripZeroMerge(call.Common().Args[0]).(*ssa.Extract); ok && e.Tuple == ssa.Value(rd) && e.Index == 3 {
 					srcOK = true
 				}
 			}
@@ -398,7 +420,7 @@ func c05Client(p *ana.Prog, r *ana.Result, name string, scion bool) {
 		gateSpec{name: "ntp.DecodePacket==nil", gate: ana.ErrNilGate(p, fn, ana.Q("net/ntp.DecodePacket"))},
 		gateSpec{name: "nts.DecodePacket==nil", gate: ana.ErrNilGate(p, fn, ana.Q("net/nts.DecodePacket")), assume: nts},
 		gateSpec{name: "nts.ProcessResponse==nil", gate: ana.ErrNilGate(p, fn, ana.Q("net/nts.ProcessResponse")), assume: nts},
-		gateSpec{name: "origin-echo", gate: originGate(p, r, fn, respRoot, reqRoot)},
+		gateSpec{name: "origin-echo", gate: originGate(p, r, fn, respRoot, reqRoot, target, isRead)},
 		gateSpec{name: "ValidateResponseMetadata==nil", gate: ana.ErrNilGate(p, fn, ana.Q("net/ntp.ValidateResponseMetadata"))},
 		gateSpec{name: "ValidateResponseTimestamps==nil", gate: ana.ErrNilGate(p, fn, ana.Q("net/ntp.ValidateResponseTimestamps"))},
 	)
@@ -710,7 +732,7 @@ func c05DecodeBuffer(p *ana.Prog, r *ana.Result, fn *ssa.Function, rd *ssa.Call,
 	}
 	arg := ana.UniqueReaching(fn, cs[0].Common().Args[argi])
 	sl, ok := arg.(*ssa.Slice)
-	if ok && sl.High == ssa.Value(n) && sl.Low == nil && sameBufferValue(fn, sl.X, rd.Call.Args[1]) {
+	if ok && sl.High != nil && stripZeroMerge(sl.High) == ssa.Value(n) && sl.Low == nil && sameBufferValue(fn, sl.X, rd.Call.Args[1]) {
 		r.Ok("C05.accept", fname, "decode-buffer-is-datagram", p.Pos(cs[0].Pos()), "the decoder reads buf[:n] of this read")
 	} else {
 		r.Violate("C05.accept", fname, "decode-buffer-is-datagram", p.Pos(cs[0].Pos()), "the first decoder is not applied to the bytes buf[:n] of this read (stale or over-long buffer contents could be accepted)")
